@@ -278,6 +278,9 @@ func checkC12(c *Ctx, r *Report) {
 
 	// ---- R3: every membership change made by the sweep reaches the rebalance trigger
 	r.rule("C12.R4", "the eligibility test and the member order are computed from the current subscription / member set (memberState.topics, groupState.members), not from a derived field", 2)
+	r.rule("C12.R7", "each member's assignment list has storage of its own: no slice stored into groupState.assignments is carried from one iteration of the enclosing member loop to the next", 1)
+	r.Explanation += " (R7) no slice stored into groupState.assignments inside a loop descends from a value carried around that loop: each member's assignment list has a backing array of its own (restoreGroupState after a failover)."
+	checkAssignmentStorage(m, r, "C12.R7")
 	if ms := needFn(m, r, "C12.R4", pkgBrokerLib, "memberSubscribes"); ms != nil {
 		checkReadsOnly(m, r, "C12.R4", "memberSubscribes decides from memberState.topics alone", ms, pkgBrokerLib+".memberState", "topics")
 	}
@@ -762,6 +765,7 @@ func checkC43(c *Ctx, r *Report) {
 	}
 	r.rule("C43.R3", "lastHeartbeat refreshed before every NONE heartbeat reply and on every JoinGroup", 2)
 	r.rule("C43.R5", "every generation bump re-arms the rebalance window: after generationID++ each path to a return stores time.Now().Add(rebalanceTimeout) into rebalanceDeadline; every other store of the deadline is the zero time or such a fresh value", 4)
+	r.Explanation += " (R5) after every generationID++ each path to a return re-arms rebalanceDeadline with time.Now().Add(rebalanceTimeout) (or bumpRebalanceDeadline), and every other store of the deadline is the zero time or such a fresh value."
 	checkDeadlineRearmed(m, r, "C43.R5")
 
 	dels := map[string][]ssa.Instruction{}
@@ -1147,5 +1151,64 @@ func checkDeadlineRearmed(m *Module, r *Report, rule string) {
 	}
 	if n == 0 {
 		r.unresolved(rule, "rebalanceDeadline stores", "none found")
+	}
+}
+
+// checkAssignmentStorage (C12.R7, added after a seeded change reused one backing array for every
+// restored member's assignment list, so that after a failover all members held the last member's
+// partitions).
+func checkAssignmentStorage(m *Module, r *Report, rule string) {
+	n := 0
+	for _, w := range fieldWriters(m, tGroupState, "assignments", true) {
+		if w.Kind != "mapupdate" {
+			continue
+		}
+		var outer *ssa.BasicBlock
+		for d := w.In.Block(); d != nil; d = d.Idom() {
+			if d.Comment == "rangeiter.loop" || d.Comment == "rangeindex.loop" || d.Comment == "for.loop" {
+				outer = d
+			}
+		}
+		if outer == nil {
+			continue
+		}
+		n++
+		r.fn(w.Fn)
+		key := "assignment list stored in " + shortName(w.Fn) + " is not shared between iterations"
+		seen := map[ssa.Value]bool{}
+		var carried *ssa.Phi
+		var walk func(v ssa.Value)
+		walk = func(v ssa.Value) {
+			v = strip(v)
+			if v == nil || seen[v] {
+				return
+			}
+			seen[v] = true
+			switch x := v.(type) {
+			case *ssa.Phi:
+				if x.Block() == outer {
+					carried = x
+					return
+				}
+				for _, e := range x.Edges {
+					walk(e)
+				}
+			case *ssa.Slice:
+				walk(x.X)
+			case *ssa.Call:
+				if bi, ok := x.Call.Value.(*ssa.Builtin); ok && bi.Name() == "append" && len(x.Call.Args) > 0 {
+					walk(x.Call.Args[0])
+				}
+			}
+		}
+		walk(w.Val)
+		if carried != nil {
+			r.viol(rule, key, m.Pos(w.In.Pos()), "the stored slice descends from "+describe(carried)+", a value carried around the loop at "+m.Pos(outer.Instrs[0].Pos())+": every iteration's list shares one backing array, so all members end up with the last one's partitions")
+		} else {
+			r.ok(rule, key, m.Pos(w.In.Pos()), "")
+		}
+	}
+	if n == 0 {
+		r.unresolved(rule, "stores into groupState.assignments inside a loop", "none found (restoreGroupState is expected)")
 	}
 }
